@@ -25,7 +25,8 @@ RULE = ("Cells = problem x fault-site family x exception class, enumerated compl
         "exception class; warnings.showwarning (identity) and sys.getrecursionlimit() are as before the call; the "
         "next clean solve equals (1e-9) the solve of a fresh identical problem that never saw a fault.  Non-trivial "
         "= the fault fired after a cache field was populated or while the warning hook was swapped."
-        "  Also: a maximise variant of the LP, a 430-term loop-built objective, and a 730-term objective with the fault raised from inside the compiled evaluator (a NumPy function planted in one node); the body runs in a fresh thread under Python's default recursion limit.")
+        "  Also: a maximise variant of the LP, a 430-term loop-built objective, and a 730-term objective with the fault raised from inside the compiled evaluator (a NumPy function planted in one node); the body runs in a fresh thread under Python's default recursion limit."
+        ' Also (round 6): the caller keeps one options dict through the faulted attempts (made with an iteration limit) and the recovery solve.')
 BUDGET = {"quick": {"workers": 16, "per_cell": 1}, "thorough": {"workers": 16, "per_cell": 6}}
 ASSUMPTIONS = ["faults are synchronous exceptions at the seams the property names; asynchronous signals inside SciPy's C code are not simulated"]
 MANIFEST = {
